@@ -138,6 +138,9 @@ class FunctionFrame:
         if isinstance(e, ast.Attribute):
             base = self.expr_origins(e.value)
             if base == {"self"}:
+                if isinstance(e.value, ast.Name) and e.attr in self._class_mutables() and e.attr not in self._self_rebound():
+                    # a mutable object created in the CLASS body is shared by all instances (and by later calls): module state
+                    return {f"module:class attribute {e.attr} (one object shared by all instances)"}
                 return {"self"}
             return base               # an attribute of a caller's object is the caller's
         if isinstance(e, ast.Subscript):
@@ -169,6 +172,43 @@ class FunctionFrame:
             # one of the ALIAS_CALLS above); recorded so that the evidence can list them
             return {"fresh"}
         return {"fresh"}
+
+    def _class_mutables(self):
+        """names bound in the class body (of this class or of its bases in the same module) to a freshly constructed mutable object"""
+        if getattr(self, "_cm", None) is not None:
+            return self._cm
+        out = set()
+        seen, todo = set(), [self.cls] if self.cls is not None else []
+        while todo:
+            c = todo.pop()
+            if c is None or id(c) in seen:
+                continue
+            seen.add(id(c))
+            for n in c.body:
+                tgt, val = None, None
+                if isinstance(n, ast.Assign) and len(n.targets) == 1 and isinstance(n.targets[0], ast.Name):
+                    tgt, val = n.targets[0].id, n.value
+                elif isinstance(n, ast.AnnAssign) and isinstance(n.target, ast.Name) and n.value is not None:
+                    tgt, val = n.target.id, n.value
+                if tgt and isinstance(val, (ast.List, ast.Dict, ast.Set, ast.ListComp, ast.DictComp, ast.SetComp)):
+                    out.add(tgt)
+                elif tgt and isinstance(val, ast.Call):
+                    name = (dotted(val.func) or "").split(".")[-1]
+                    if name not in ("range", "frozenset", "tuple", "property", "staticmethod", "classmethod", "str", "int", "float", "bool"):
+                        out.add(tgt)
+            for b in c.bases:
+                bn = (dotted(b) or "").split(".")[-1]
+                todo.append(getattr(self.module, "classes", {}).get(bn))
+        self._cm = out
+        return out
+
+    def _self_rebound(self):
+        """attributes this function assigns on self (self.X = ...): from then on self.X is the instance's own object"""
+        if getattr(self, "_sr", None) is None:
+            self._sr = {t.attr for n in ast.walk(self.fnode) if isinstance(n, (ast.Assign, ast.AnnAssign, ast.AugAssign))
+                        for t in (n.targets if isinstance(n, ast.Assign) else [n.target])
+                        if isinstance(t, ast.Attribute) and isinstance(t.value, ast.Name) and t.value.id == "self"}
+        return self._sr
 
     # ------------------------------------------------------------------ fixpoint over assignments
     def analyse(self):
@@ -283,7 +323,9 @@ class FunctionFrame:
                 return self._flow_origins(e.id, lineno)
             return self.expr_origins(e)
         if isinstance(e, ast.Attribute) or isinstance(e, ast.Subscript):
-            return self.expr_origins_at(e.value, lineno) if not isinstance(e, ast.Attribute) or self.expr_origins(e.value) != {"self"} else {"self"}
+            if isinstance(e, ast.Attribute) and self.expr_origins(e.value) == {"self"}:
+                return self.expr_origins(e)          # self.X: the instance's own object -- or a class-level shared one
+            return self.expr_origins_at(e.value, lineno)
         if isinstance(e, ast.Call) and isinstance(e.func, ast.Attribute) and (dotted(e.func) or "").split(".")[-1] in FRESH_METHODS:
             return self.expr_origins(e)
         return self.expr_origins(e)
@@ -336,8 +378,11 @@ def violating(site, fn):
         return set()
     root = site["root"] or ""
     # drawing on / configuring a renderer object that was passed in for that purpose is the function's documented effect
-    if root in EFFECT_RECEIVER_HINTS or root.startswith("ax"):
+    shared = {o for o in bad if o.startswith("module:class attribute") or o.startswith("module:memoised")}
+    if (root in EFFECT_RECEIVER_HINTS or root.startswith("ax")) and not shared:
         return set()
+    if shared and (root in EFFECT_RECEIVER_HINTS or root.startswith("ax")):
+        return shared                 # reached through self, but the object is shared between instances / calls
     if site.get("soft"):
         # `x += y` on a name: in-place only for mutable x; a parameter that is a number / str / tuple is merely rebound.
         # Counted only when the name provably holds a list / array created from a parameter alias (np.asarray ...): conservative skip
